@@ -50,7 +50,7 @@ PROPS = {
     },
     "C13": {
         "level": "proof",
-        "suites": ["c13_identity"],
+        "suites": ["c13_identity", "c13_shared"],
         "rule": "pairs of rules: a generated rule and a near-miss of it (permuted targets/sources, a string moved across a section boundary, "
                 "split/merged command lines, leading/trailing whitespace in a command or source, renamed target, added source, two targets merged) "
                 "or an independent rule; strings contain ':' and spaces; plus rules outside the parser's range (empty string, embedded newline). "
@@ -98,7 +98,7 @@ PROPS = {
     },
     "C08": {
         "level": "proof",
-        "suites": ["hist", "crash"],
+        "suites": ["hist", "mixed", "crash"],
         "columns": ["files", "cache"],
         "rule": "same histories and crash points as C07; monitor: the set of contents at ever-declared target paths and in the cache before each build/clean "
                 "is a subset of the set afterwards (and at every crash point outside a command), and no rename by ruler goes over a target or cache "
@@ -159,7 +159,7 @@ PROPS = {
     },
     "C19": {
         "level": "proof",
-        "suites": ["real_c19"],
+        "suites": ["real_c19", "c19_live"],
         "rule": "ruler directories produced by random build/clean histories of the real binary on the real file system (4 quick / 40 thorough), sometimes with a damaged history "
                 "file; `ruler serve` on a loopback port; requests: every cached hash (with and without trailing slash), every recorded (rule, sources) pair, absent hashes, "
                 "and hostile paths (wrong length, percent-encoded characters and slashes, '..', empty segments, extra segments, other prefixes, non-ASCII, near-miss "
@@ -230,7 +230,7 @@ PROPS = {
     },
     "C20": {
         "level": "proof",
-        "suites": ["hist", "sched"],
+        "suites": ["hist", "mixed", "sched"],
         "columns": ["verdict", "cmds", "status"],
         "rule": "histories over the full C01 alphabet generated while running (edit/revert source, edit rules incl. invalid files, build, goal build, clean, goal clean, tamper, delete target, delete cache entry, delete ruler directory or parts, chmod), 260 quick / 4000 thorough, graphs of 1..6 (9) rules with multi-target rules, transitive edges, commands in a mini-language (constant, copy, concatenation with tags from a small pool so equal contents are common, chmod), a quarter with failing rules and missing leaves; corpus cases first. After every op the implementation's verdict, executed script lines, status lines, workspace, cache listing, decoded history files and file-state table are compared with the model (only the columns this property reads). Distinct by hash of the history; non-trivial = contains a successful build." + " Plus every explored schedule of suite sched. Monitor: each banner is checked against the rename / command log of the same build (Built iff the rule's command ran, Recovered iff moved in from the cache, Up-to-date iff untouched), exactly one line per target of finished rules, none for blocked rules.",
         "trusted_base": COMMON_TB + ["the recording Printer of the harness"],
